@@ -65,6 +65,7 @@ Definition cfg_self (c : config) : addr :=
   match cfg_nets c with (f, v, _) :: _ => (f, v) | [] => (F4, 0) end.
 
 Definition in_my (c : config) (a : addr) : bool := in_any (cfg_nets c) a.
+Definition my_addrs (c : config) : list addr := map (fun p : prefix => fst p) (cfg_nets c).
 Definition inside_allow (c : config) (vpn a : addr) : bool := al_allow (lpm (cfg_inside c) vpn) a.
 Definition global_allow (c : config) (a : addr) : bool := al_allow (cfg_global c) a.
 
@@ -180,12 +181,14 @@ Section Step.
   | LLearn (vpns : list addr) (src : ap)
   | LBlock (vpn : addr) (a : ap)
   | LDone (vpns : list addr)
-  | LCopy (vpn : addr) (pref : list prefix).
+  | LCopy (vpn : addr) (pref : list prefix)
+  | LHsCheck (vpns : list addr) (src : ap).
 
   (* what an operation shows: punch destinations, or (registered?, CopyAddrs, relays, contribution sizes) *)
   Inductive lout :=
   | ONone
   | OPunch (dst : list ap)
+  | OBool (b : bool)
   | OList (present : bool) (addrs : list ap) (relays : list addr) (counts : list (addr * (N * N * N))).
 
   (* per owner: how many reported v4 / reported v6 / relay entries it contributes, owners in Addr.Compare order *)
@@ -261,12 +264,13 @@ Section Step.
     | LLearn vpns src =>
         match vpns with
         | v0 :: _ =>
-            (* readOutsidePackets drops a source inside the node's own networks before any tunnel is looked at *)
-            if in_my c (ap_addr src) then (s, ONone)
+            (* readOutsidePackets drops a source inside the node's own networks before any tunnel is looked at;
+               the output says whether src became the tunnel's remote *)
+            if in_my c (ap_addr src) then (s, OBool false)
             else
               let '(s1, id) := get_remote_list s vpns in
-              if ral_allow_all c vpns (ap_addr src) then (on_list s1 id [RLearn v0 src], ONone) else (s1, ONone)
-        | [] => (s, ONone)
+              if ral_allow_all c vpns (ap_addr src) then (on_list s1 id [RLearn v0 src], OBool true) else (s1, OBool false)
+        | [] => (s, OBool false)
         end
     | LBlock vpn a =>
         let '(s1, id) := get_remote_list s [vpn] in (on_list s1 id [RBlock a], ONone)
@@ -284,6 +288,11 @@ Section Step.
             (s2, OList true (rl_addrs (list_of s2 id)) (rl_relays (list_of s2 id)) (counts_of (list_of s2 id)))
         | None => (s, OList false [] [] [])
         end
+    | LHsCheck vpns src =>
+        (* a handshake from src with a certificate for vpns: readOutsidePackets' gate, then validatePeerCert
+           (not one of the node's own addresses, AllowAll over every address of the certificate) *)
+        (s, OBool (negb (in_my c (ap_addr src)) && negb (existsb (fun v => mem_addr v (my_addrs c)) vpns) &&
+                   ral_allow_all c vpns (ap_addr src)))
     end.
 
   Definition lrun (s : lh) (ops : list lop) : lh := fold_left (fun st o => fst (lstep st o)) ops s.
